@@ -129,6 +129,8 @@ class DiagAnalysis:
             return "status"
         if rt.startswith("std::pair<bool"):
             return "pairbool"
+        if rt.startswith("enum ") or rt in self.prog.enums:
+            return "enum"     # convention: the enumerator with value 0 means success
         return None
 
     def classify_return(self, f, ret, kind):
@@ -152,7 +154,7 @@ class DiagAnalysis:
                 return "fail"
             if v == 1:
                 return "ok"
-        if kind == "status":
+        if kind in ("status", "enum"):
             if v is not None:
                 return "ok" if v == 0 else "fail"
         if kind == "optional":
@@ -186,6 +188,9 @@ class DiagAnalysis:
                         return "stream"
         if e.get("k") == "ConditionalOperator":
             c = strip_all(e["c"][0])
+            if c.get("k") == "DeclRefExpr" and c.get("dk") == "Var":
+                # `flag ? SUCCESS : FAILURE`: the failure is decided where the flag is set
+                return ("var", c["d"])
             if c.get("k") == "DeclRefExpr" and c.get("dk") == "ParmVar":
                 idx = [i for i, p in enumerate(f.params) if p["d"] == c["d"]]
                 if idx:
@@ -298,18 +303,26 @@ class DiagAnalysis:
                     continue
                 pts.append((n, c))
         if ret_vars:
+            vtypes = {}
+            for n in f.walk():
+                if n.get("k") == "VarDecl" and n.get("d") in ret_vars:
+                    vtypes[n["d"]] = (n.get("ct") or n.get("t") or "").replace("const ", "")
+
+            def vkind(d):
+                # a bool flag means failure when false; a status/enum variable when non-zero
+                return "bool" if vtypes.get(d) in ("bool", "_Bool") else ("status" if kind in ("enum", "status") else kind)
             for n in f.walk():
                 if n.get("k") == "VarDecl" and n.get("d") in ret_vars and n.get("c"):
                     init = strip_all(n["c"][0])
                     v = folded(init)
-                    if self._is_fail_const(v, "bool" if kind == "pairbool" else kind):
+                    if self._is_fail_const(v, vkind(n["d"])):
                         pts.append((n, "fail"))
                     elif is_call(init) and init.get("k") != "CXXConstructExpr":
                         pts.append((n, ("call", init)))
                 if n.get("k") == "BinaryOperator" and n.get("op") == "=" and strip_all(n["c"][0]).get("d") in ret_vars:
                     rhs = strip_all(n["c"][1])
                     v = folded(rhs)
-                    if self._is_fail_const(v, kind):
+                    if self._is_fail_const(v, vkind(strip_all(n["c"][0]).get("d"))):
                         pts.append((n, "fail"))
                     elif v is None and is_call(rhs) and rhs.get("k") != "CXXConstructExpr":
                         pts.append((n, ("call", rhs)))
@@ -324,7 +337,7 @@ class DiagAnalysis:
     def _is_fail_const(v, kind):
         if v is None:
             return False
-        if kind == "bool":
+        if kind in ("bool", "pairbool"):
             return v == 0
         if kind == "status":
             return v != 0
@@ -366,6 +379,16 @@ class DiagAnalysis:
                         if r1 == "E" and r2 == "E":
                             return "E"
                         if r1 in ("E", "S") and r2 in ("E", "S") and st == "N":
+                            st = "S"
+                    continue
+                if k[0] == "S" and k[2] not in (0,) and k in g.rep:
+                    # switch on a call's result, on an arm other than the success value
+                    c0 = call_of(g.rep[k][1])
+                    if c0 is not None:
+                        r0 = me.covered_call(f, c0, mode, errs)
+                        if r0 == "E":
+                            return "E"
+                        if r0 == "S" and st == "N":
                             st = "S"
                     continue
                 if k[0] != "T" or k[2] is not False:
